@@ -12,7 +12,7 @@ from t2.family import Program
 
 UNION_MEMBERS = [
     ["u32", "u8"], ["u16", "u64", "u8"], ["inner", "u16"], ["a_u16_3", "u32"], ["named_s", "u64"], ["anon_s", "u32"],
-    ["i24", "u16"], ["a_char_4", "u32"], ["e8", "u16"], ["ptr", "u8"], ["f32", "u32"], ["a_inner_2", "u8"], ["wchar", "u8"],
+    ["i24", "u16"], ["a_char_4", "u32"], ["anon_s", "u8"], ["u8", "anon_s", "u16"], ["e8", "u16"], ["ptr", "u8"], ["f32", "u32"], ["a_inner_2", "u8"], ["wchar", "u8"],
 ]
 
 HISTORY_DEFS = [
@@ -22,6 +22,8 @@ HISTORY_DEFS = [
     ("union U { struct { uint8 p; struct { uint8 q; uint8 r; } in2; } m0; uint32 w; };", False),
     ("union U { struct { uint8 x; uint16 y; } m0; uint16 m1; uint8 raw[4]; };", True),
     ("union U { uint64 q; struct { uint32 a; uint32 b; } two; uint8 bytes[8]; };", False),
+    ("union U { union { struct { uint8 a; uint8 b; } s; uint16 w; } inn; uint32 full; };", False),
+    ("union U { struct { uint16 lo; uint16 hi; }; uint8 b; };", False),
 ]
 
 
@@ -69,6 +71,35 @@ def run(tier, seed):
                 h.case((text, endian, tuple("/".join(map(str, p[0])) for p in seq)), ok, observed=obs,
                        inputs={"definition": text, "align": align, "endian": endian, "initial": init.hex(), "assignments": log})
     h.add_to(rep)
+    # assignments through a *held* reference to a nested member (p = u.m; p.x = 1; p.y = 2)
+    hp = Bounded("held-proxy", "definitions with a nested structure member x pairs of assignments through one held reference")
+    for text, align in HISTORY_DEFS:
+        cs = cstruct()
+        cs.load(text, align=align)
+        U = cs.U
+        paths = [p for p in leaf_paths(U) if len(p[0]) >= 2]
+        tops = sorted({p[0][0] for p in paths})
+        for top in tops:
+            sub = [p for p in paths if p[0][0] == top and len(p[0]) == 2]
+            for a, b2 in itertools.product(sub, repeat=2):
+                init = bytes(rnd.randrange(256) for _ in range(len(U)))
+                try:
+                    u = U(init)
+                    buf = bytearray(init)
+                    held = getattr(u, top)
+                    vals = []
+                    for path in (a, b2):
+                        val = rnd.randrange(0, 1 << (8 * path[2]))
+                        setattr(held, path[0][1], val)
+                        ref_assign(cs, U, buf, path, val, "<")
+                        vals.append(("/".join(path[0]), val))
+                    got, want = u.dumps(), bytes(buf)
+                    ok = same_modulo_padding(U, got, want, "<")
+                    obs = f"dumps {got.hex()} expected {want.hex()}"
+                except Exception as e:  # noqa: BLE001
+                    ok, obs, vals = False, f"raises {type(e).__name__}: {e}", []
+                hp.case((text, top, a[0], b2[0]), ok, observed=obs, inputs={"definition": text, "held": top, "assignments": vals, "initial": init.hex()})
+    hp.add_to(rep)
     rep.extra["rule"] = "union programs: member kinds of every fixed-size class x endian x mode; histories: definitions x assignment paths x values"
     rep.extra["explanation"] = (
         "deductive part: union layout (T1: size = max member size rounded up to the max alignment, alignment = max), per union program "
